@@ -32,6 +32,14 @@ def run(pid, tier):
     except ImportError as ex:
         sys.stderr.write('no check for %s: %s\n' % (pid, ex)); return 2
     ctx.explanation = getattr(mod, 'EXPLANATION', '')
+    try:
+        from coclint.props import shared as _sh
+        if _sh.BUILT_ON.get(pid):
+            ctx.explanation += (' In addition the invariants of the generic machinery this feature is built on (%s) are evaluated and claimed under ids '
+                                '%s.built-on-<component>.<rule> (a necessary condition: the feature cannot hold on a tree where the machinery under it is broken; DESIGN 3.4).'
+                                % (', '.join(_sh.BUILT_ON[pid]), pid))
+    except Exception:
+        pass
     ctx.assumptions = list(getattr(mod, 'ASSUMPTIONS', []))
     broken = None
     try:
@@ -84,6 +92,16 @@ def main():
     tier = os.environ.get('VERIF_TIER') or 'quick'
     if '--tier' in a:
         tier = a[a.index('--tier') + 1]
+    if a[0] == '--all':
+        # every registered check in one process, sharing the fact base (used by tools/matrix.py; evidence is written unless COCLS_NO_EVIDENCE)
+        ids = [c['property_id'] for c in json.load(open(os.path.join(os.path.dirname(HERE), 'MANIFEST.json')))['checks']]
+        worst = 0
+        for pid in ids:
+            print('=== %s begin' % pid); sys.stdout.flush()
+            rc = run(pid, tier)
+            print('=== %s rc=%d' % (pid, rc)); sys.stdout.flush()
+            worst = max(worst, 1 if rc == 1 else 0)
+        return worst
     return run(a[0], tier)
 
 
